@@ -120,7 +120,7 @@ def worker(job):
                 d["smt2_sample"] = tm.smt_script(list(ob.pc) + [tm.Not(ob.goal)], produce_models=False)[:3000]
             obs.append(d)
         return dict(key=key, status=res["status"], error=res["error"], stats=res["stats"], obligations=obs,
-                    precondition=res.get("precondition", "none"), files=v.ip.files_read, time=round(time.time() - t0, 2), trivial=v.counter.get("trivial", 0),
+                    precondition=res.get("precondition", "none"), normal_exit=res.get("normal_exit", "none"), files=v.ip.files_read, time=round(time.time() - t0, 2), trivial=v.counter.get("trivial", 0),
                     assumptions=list(getattr(cls, "assumptions", [])))
     except solve.SolverDisagreement as e:
         return dict(key=key, status="checker-error", error="solver disagreement: %s" % e, obligations=[], files={},
@@ -210,6 +210,9 @@ def main():
         elif r.get("precondition") == "unsat":
             errors.append((fkey, "vacuous: the preconditions of the contract are contradictory"))
         pf["precondition_satisfiable"] = r.get("precondition", "none")
+        pf["normal_exit_reachable"] = r.get("normal_exit", "none")
+        if r.get("normal_exit") == "unsat":
+            errors.append((fkey, "vacuous: every normal exit of the function is infeasible under the contract"))
         for o in mine:
             total += 1
             pf["obligations"] += 1
